@@ -23,9 +23,10 @@ func init() {
 			"Added after blind round 5: ReuseWAL reopens the last file of the sorted list only; the reader puts no constant bound on decoded key/value lengths. " +
 			"Added after blind round 6: the explicit-sequence rule of C08 (GetEntriesFrom's upper bound is the counter). " +
 			"Added after blind round 7: processFragments concatenates the fragment payloads (running offset starting at 0 and advancing by len(fragment), or append) — fragments are not all of one size. " +
-			"Added after blind round 8: getSequenceBounds compares every entry with both running bounds (a one-entry file has a maximum).",
+			"Added after blind round 8: getSequenceBounds compares every entry with both running bounds (a one-entry file has a maximum). " +
+			"Added after blind round 9: FindWALFiles orders by name only (a comparator that asks the file system, or a reversal, is reported); the counter's monotone-stores obligations are listed here too (a read from n is cut off at the counter).",
 		NotDecided: "equality of replayed and appended sequences for all inputs (the layout agreement plus CRC is its structural part); behaviour with non-monotone sequence numbers.",
-		Rules:      []func(*Ctx, *Reporter){ruleWalHeaderCodec, ruleWalPayloadCodec, ruleWalFragmentation, ruleWalLengthFits, ruleWalCRC, ruleWalFileOrder, ruleWalNoBufferDrop, ruleWalRouteBySize, ruleNoFabrication, ruleReuseNewestOnly, ruleWalReaderNoConstantLimits, ruleExplicitSeqBelowCounter, ruleFragmentsConcatenated, ruleSequenceBoundsIndependent},
+		Rules:      []func(*Ctx, *Reporter){ruleWalHeaderCodec, ruleWalPayloadCodec, ruleWalFragmentation, ruleWalLengthFits, ruleWalCRC, ruleWalFileOrder, ruleWalNoBufferDrop, ruleWalRouteBySize, ruleNoFabrication, ruleReuseNewestOnly, ruleWalReaderNoConstantLimits, ruleExplicitSeqBelowCounter, ruleFragmentsConcatenated, ruleSequenceBoundsIndependent, subRules(ruleWalMonotone, "monotone-stores")},
 	})
 }
 
@@ -566,15 +567,69 @@ func ruleWalFileOrder(c *Ctx, r *Reporter) {
 		r.Unresolved("wal.{FindWALFiles,ReplayWALDir} / WAL.{GetEntriesFrom,getEntriesFromFile}", "not found")
 		return
 	}
+	// an ordering call: by name (sort.Strings, slices.Sort, or a comparator that looks at nothing but the names), or by
+	// something else (a comparator that asks the file system, a reversal): "name" / "other" / ""
+	orderingKind := func(i ssa.Instruction) string {
+		call, ok := i.(*ssa.Call)
+		if !ok {
+			return ""
+		}
+		switch sn := staticName(call); sn {
+		case "sort.Strings", "slices.Sort":
+			return "name"
+		case "sort.Slice", "sort.SliceStable", "slices.SortFunc", "slices.SortStableFunc", "sort.Sort", "sort.Stable", "slices.Reverse":
+			var cmpFn *ssa.Function
+			for _, a := range call.Call.Args {
+				if mc, ok := a.(*ssa.MakeClosure); ok {
+					cmpFn, _ = mc.Fn.(*ssa.Function)
+				} else if f, ok := a.(*ssa.Function); ok {
+					cmpFn = f
+				}
+			}
+			if cmpFn == nil {
+				return "other"
+			}
+			nameOnly := true
+			AllInstrs(cmpFn, true, func(_ *ssa.Function, x ssa.Instruction) {
+				if ci, ok := x.(ssa.CallInstruction); ok {
+					if _, isB := ci.Common().Value.(*ssa.Builtin); isB {
+						return
+					}
+					f := ci.Common().StaticCallee()
+					if f == nil || f.Pkg == nil {
+						nameOnly = false
+						return
+					}
+					switch f.Pkg.Pkg.Path() {
+					case "strings", "cmp", "path", "path/filepath":
+					default:
+						nameOnly = false
+					}
+				}
+			})
+			if nameOnly {
+				return "name"
+			}
+			return "other"
+		}
+		return ""
+	}
 	sorted := false
 	for _, e := range SuccessExits(find, true) {
-		bad, _ := MustPass(find, []ssa.Instruction{e}, func(i ssa.Instruction) bool {
-			call, ok := i.(*ssa.Call)
-			return ok && (staticName(call) == "sort.Strings" || staticName(call) == "slices.Sort")
-		})
+		bad, _ := MustPass(find, []ssa.Instruction{e}, func(i ssa.Instruction) bool { return orderingKind(i) == "name" })
 		sorted = bad == nil
 	}
-	r.Check(sorted, "wal.FindWALFiles", c.FnPos(find), "the file list is sorted by name (creation time) before it is returned", "FindWALFiles returns the directory listing unsorted: files would be replayed out of order")
+	var reordered ssa.Instruction
+	AllInstrs(find, false, func(_ *ssa.Function, ins ssa.Instruction) {
+		if orderingKind(ins) == "other" {
+			reordered = ins
+		}
+	})
+	if reordered != nil {
+		r.Bad("wal.FindWALFiles", c.InsPos(reordered), "the file list is (re)ordered by something other than the file names — modification time, size, a reversal: the names carry the creation order of the logs, anything else can put a rotated-away log whose tail was flushed late behind its successor, and replay then delivers the successor's entries before the predecessor's")
+	} else {
+		r.Check(sorted, "wal.FindWALFiles", c.FnPos(find), "the file list is sorted by name (creation time) before it is returned", "FindWALFiles returns the directory listing unsorted: files would be replayed out of order")
+	}
 	var helperCall *ssa.Call // GetEntriesFrom's helper that walks the older files, if the loop was extracted
 	for _, fn := range []*ssa.Function{dir, from} {
 		// the loop over the files returned by FindWALFiles is ascending
